@@ -1,8 +1,8 @@
 (** C11 — SPF evaluation is bounded, ends in an RFC 7208 result and cannot inject header text.
     Only statements here; proofs live in Proofs/Spf*.v.  The model (Model/Spf.v) is the code of
-    qsmtpd/spf.c after the fixes in fixes/C11-*.diff; resolver and macro expander are parameters. *)
+    qsmtpd/spf.c after the fixes in fixes/C11-*.diff (incl. C11-14: ptr names compared case-insensitively); resolver and macro expander are parameters. *)
 From Qv Require Import Common.Bytes Gen.GenSpf Model.SpfBase Model.SpfEnv Model.SpfMacro Model.Spf Model.SpfZone Spec.SpfSpec
-  Spec.SpfRfc Proofs.SpfSanitise Proofs.SpfCore Proofs.SpfHeader Proofs.SpfTheorems Proofs.SpfRfcWitness.
+  Spec.SpfRfc Proofs.SpfSanitise Proofs.SpfCore Proofs.SpfHeader Proofs.SpfTheorems Proofs.SpfRfcWitness Proofs.SpfAgree Proofs.SpfRfcStrict.
 
 (** Stage 1.  For every resolver [D] (any functions answering the five resolver entry points: all
     zones, cyclic include/redirect graphs, injected errors), every session [X], every sender domain
@@ -102,6 +102,51 @@ Proof.
         (conj witness_ptr_dns_error witness_ip6_unspecified)))).
 Qed.
 Print Assumptions C11_rfc_deviation_witnesses.
+
+(** Stage 3, the part that IS proved.  For every resolver [D] (all zones), every session [X] (client
+    address, sender, HELO, reverse name) and every sender domain: if the zone is in the class
+    [in_class D X domain] — a decidable predicate: evaluating it by RFC 7208 for this client meets no
+    record outside the strict macro-free grammar of Spec/SpfRfc.v, no resolver error RFC 7208 has no
+    result for (local / permanent errors; temporary ones are in), no invalid initial domain, and none
+    of the known deviations F-C11-2 (ip4/ip6 length < 8), F-C11-10 (10 or more MX hosts), F-C11-11
+    (redirect to a domain without record), F-C11-12 (DNS error of the PTR lookup), F-C11-13 ("ip6:::") — then check_host() of the model (the one
+    tied to qsmtpd/spf.c, with the macro expander of Model/SpfMacro.v) returns exactly the result of
+    the RFC 7208 evaluator: pass / fail / softfail / neutral as the first matching mechanism dictates
+    (all, ip4, ip6, a, mx, ptr, exists, include with its result mapping, redirect), none without a
+    record, permerror for more than one record or duplicate redirect / exp, temperror on a temporary
+    DNS failure, unknown modifiers and exp ignored; and "fail" where RFC 7208 says the limit of 10
+    DNS terms is exceeded (RLimit).  Records with syntax errors are NOT in the class (they make the
+    reference answer RSkip): there qsmtpd/spf.c is known to differ (it stops at the first match). *)
+Theorem C11_rfc_agreement_partial : forall D X domain e0 m0 r g,
+  check_host_c D X domain e0 m0 = Ok (r, g) -> in_class D X domain = true ->
+  match rfc_check_host D X domain with
+  | RCode z => r = z
+  | RLimit => r = SPF_FAIL
+  | RSkip => False
+  end.
+Proof. exact rfc_agreement_partial. Qed.
+Print Assumptions C11_rfc_agreement_partial.
+
+(** the class is defined through the reference evaluator with its [strict] switch on; what that
+    evaluator answers is what the plain RFC 7208 evaluator answers, or RSkip *)
+Theorem C11_strict_reference_is_rfc : forall D X domain,
+  rfc_check_host_strict D X domain = RSkip \/ rfc_check_host_strict D X domain = rfc_check_host D X domain.
+Proof. exact strict_is_rfc. Qed.
+Print Assumptions C11_strict_reference_is_rfc.
+
+(** the class is not empty: a zone with ip4, a with CIDR, include, mx, ~all, evaluated for two clients,
+    and the cyclic zone of the non-vacuity example (limit exceeded) *)
+Example C11_agreement_nonvacuous :
+  (in_class wc_zone (w_sess w_v4 []) w_name = true
+   /\ rfc_check_host wc_zone (w_sess w_v4 []) w_name = RCode SPF_PASS
+   /\ result_of (check_host_c wc_zone (w_sess w_v4 []) w_name None None) = Some SPF_PASS)
+  /\ (in_class wc_zone (w_sess 281470698652999%N []) w_name = true
+      /\ rfc_check_host wc_zone (w_sess 281470698652999%N []) w_name = RCode SPF_SOFTFAIL
+      /\ result_of (check_host_c wc_zone (w_sess 281470698652999%N []) w_name None None) = Some SPF_SOFTFAIL)
+  /\ (in_class ex_zone ex_sess ex_name = true /\ rfc_check_host ex_zone ex_sess ex_name = RLimit).
+Proof.
+  split; [exact class_example_pass|]. split; [exact class_example_softfail|]. split; vm_compute; reflexivity.
+Qed.
 
 (** non-vacuity: a record that includes itself is evaluated, 10 terms deep, and fails *)
 Example C11_nonvacuous :
